@@ -20,7 +20,7 @@ LEVEL_TEXT = ('Kernel-checked theorems (Props/C17.v) about CHECKED twins of the 
               'through a bounds-checked get/set and the result is None at the first access outside an array: for EVERY '
               'structurally valid CSR matrix (any size; empty rows, missing or zero diagonals, unsorted / repeated columns) '
               'and every list of rows inside [0,n) -- in particular the forward and backward sweep ranges the callers pass -- '
-              'the checked gauss_seidel, sor_gauss_seidel and jacobi never leave their arrays and return exactly what the '
+              'the checked gauss_seidel, sor_gauss_seidel, jacobi and the indexed gauss_seidel_indexed / jacobi_indexed (any index array with entries in [0,n)) never leave their arrays and return exactly what the '
               'bit-exact kernel models of C09 return; naive and standard aggregation (the -n sentinel arithmetic, ids shifted in place, y written at next-1 / next) '
               'likewise for every structurally valid CSR graph of any size, symmetric or not; maximal_independent_set_serial likewise (any marker values, any starting state of x); breadth_first_search likewise (order[N] is written '
               'only while fewer than n vertices are labelled, any seed in range); for the Ruge-Stuben first pass (lambda buckets sized '
@@ -36,7 +36,7 @@ LEVEL_TEXT = ('Kernel-checked theorems (Props/C17.v) about CHECKED twins of the 
               'headers under AddressSanitizer + UndefinedBehaviorSanitizer + LeakSanitizer, through the Python callers (so '
               'every buffer is sized as they size it), over the complete enumeration of small graphs and structured random '
               'CSR/BSR inputs, each run under a time limit.')
-LEVEL_NOTE = ('Proof covers 8 of 66 kernels (gauss_seidel, sor_gauss_seidel, jacobi, naive_aggregation, standard_aggregation, breadth_first_search, maximal_independent_set_serial, rs_cf_splitting; all unbounded; plus the slot-count theorem for rs_direct / rs_classical interpolation pass 1/2 at the level of the C11 row models).  For the other 58 the sanitizer run is an oracle, not a '
+LEVEL_NOTE = ('Proof covers 10 of 66 kernels (gauss_seidel, sor_gauss_seidel, jacobi, gauss_seidel_indexed, jacobi_indexed, naive_aggregation, standard_aggregation, breadth_first_search, maximal_independent_set_serial, rs_cf_splitting; all unbounded; plus the slot-count theorem for rs_direct / rs_classical interpolation pass 1/2 at the level of the C11 row models).  For the other 56 the sanitizer run is an oracle, not a '
               'proof; it is the search that produces failing inputs.  Memory safety of the C++ text itself is never proved: '
               'the theorems are about Gallina twins tied to the code by correspondence.  Lloyd clustering is exercised with '
               'positive weights only (its documented domain): zero-weight edges lead to duplicate centres and a heap '
@@ -51,7 +51,7 @@ RULE += (' '
          'Corpus incl. dense-GMRES AIR paths (maxiter below / at the local size, CSR and BSR).')
 TRUSTED = ['GCC 12 AddressSanitizer / UndefinedBehaviorSanitizer / LeakSanitizer runtimes (oracle side)',
            'NumPy allocates each array with malloc of its exact byte size (so the red zones start at the array ends)']
-PARTIAL = ['58 of 66 kernels: sanitizer oracle only, no theorem',
+PARTIAL = ['56 of 66 kernels: sanitizer oracle only, no theorem',
            'termination: time limit per run, plus structural recursion of the models; no termination theorem for the C++ loops']
 REFUTED = []
 HEADER = ('From Coq Require Import ZArith List Bool PrimFloat.\nImport ListNotations.\n'
@@ -281,6 +281,17 @@ def twin_valid(ctx):
             amg_core.jacobi(Ap, Aj, Ax, xx, b, temp, *rng3, np.array([om]))
             cases.append(relax_case(3, rng3, [om], [Ap, Aj], [Ax, x, b, np.zeros(n)], xx))
             ctx.case(('twin', r, rng3), nontrivial=A.nnz > 0)
+        # the indexed kernels: a random subset of the rows, in any order, possibly with repetitions
+        idx = np.array([rng.randrange(n) for _ in range(rng.choice([0, 1, n, n + 2]))], dtype=I32)
+        m = len(idx)
+        for rng3 in ((0, m, 1), (m - 1, -1, -1)):
+            xx = x.copy()
+            amg_core.gauss_seidel_indexed(Ap, Aj, Ax, xx, b, idx, *rng3)
+            cases.append(relax_case(7, rng3, [], [Ap, Aj, idx], [Ax, x, b], xx))
+        xx = x.copy()
+        amg_core.jacobi_indexed(Ap, Aj, Ax, xx, b, idx, np.array([om]))
+        cases.append(relax_case(5, (0, 0, 0), [om], [Ap, Aj, idx], [Ax, x, b], xx))
+        ctx.case(('twin-indexed', r, idx.tobytes()), nontrivial=A.nnz > 0 and m > 0)
     bad, errs = cq.run_cases('c17_twin', HEADER, 'ccaseT float', 'cchkF', cases)
     for e in errs:
         ctx.disagree('C17 twin evaluation', None, e, None)
@@ -376,10 +387,25 @@ def twin_malformed(ctx, asan_dir):
     muts.append(('sor/column-index-n', 1, (2, -1, -1), [1.25], Ap, Aj1, Ax, x, b))
     muts.append(('jacobi/row-range-past-end', 3, (0, 4, 1), [0.5], Ap, Aj, Ax, x, b))
     muts.append(('valid-control', 0, (0, 3, 1), [], Ap, Aj, Ax, x, b))
-    kern = {0: 'gauss_seidel', 1: 'sor_gauss_seidel', 3: 'jacobi'}
+    idx_ok = np.array([2, 0, 1], dtype=I32)
+    idx_bad = np.array([2, 3, 1], dtype=I32)
+    muts.append(('gs-indexed/index-entry-n', 7, (0, 3, 1), [], Ap, Aj, Ax, x, b, idx_bad))
+    muts.append(('gs-indexed/position-past-index-array', 7, (0, 4, 1), [], Ap, Aj, Ax, x, b, idx_ok))
+    muts.append(('gs-indexed/valid-control', 7, (2, -1, -1), [], Ap, Aj, Ax, x, b, idx_ok))
+    muts.append(('jacobi-indexed/index-entry-n', 5, (0, 0, 0), [0.5], Ap, Aj, Ax, x, b, idx_bad))
+    muts.append(('jacobi-indexed/column-index-n', 5, (0, 0, 0), [0.5], Ap, Aj1, Ax, x, b, idx_ok))
+    muts.append(('jacobi-indexed/valid-control', 5, (0, 0, 0), [0.5], Ap, Aj, Ax, x, b, idx_ok))
+    kern = {0: 'gauss_seidel', 1: 'sor_gauss_seidel', 3: 'jacobi', 5: 'jacobi_indexed', 7: 'gauss_seidel_indexed'}
     cases, tags = [], []
-    for tag, kind, r3, fs, ap, aj, ax, xx, bb in muts:
-        args = [ap, aj, ax, xx.copy(), bb] + ([np.zeros(len(xx))] if kind == 3 else []) + list(r3) + ([np.array(fs)] if kind == 3 else list(fs))
+    for mut in muts:
+        tag, kind, r3, fs, ap, aj, ax, xx, bb = mut[:9]
+        idx_ = mut[9] if len(mut) > 9 else None
+        if kind == 7:
+            args = [ap, aj, ax, xx.copy(), bb, idx_] + list(r3)
+        elif kind == 5:
+            args = [ap, aj, ax, xx.copy(), bb, idx_, np.array(fs)]
+        else:
+            args = [ap, aj, ax, xx.copy(), bb] + ([np.zeros(len(xx))] if kind == 3 else []) + list(r3) + ([np.array(fs)] if kind == 3 else list(fs))
         rep, rc, out = run_one_under_asan(asan_dir, dict(kernel=kern[kind], args=tuple(args), case='malformed/' + tag),
                                           'mal_' + tag.replace('/', '_'))
         ctx.case(('malformed', tag))
@@ -395,7 +421,7 @@ def twin_malformed(ctx, asan_dir):
             getattr(amg_core, kern[kind])(*a2)
             expected = a2[3]
         fls = [ax, xx, bb] + ([np.zeros(len(xx))] if kind == 3 else [])
-        cases.append(relax_case(kind, r3, fs, [ap, aj], fls, expected))
+        cases.append(relax_case(kind, r3, fs, [ap, aj] + ([idx_] if idx_ is not None else []), fls, expected))
         tags.append((tag, rep[0] if rep else None))
     bad, errs = cq.run_cases('c17_mal', HEADER, 'ccaseT float', 'cchkF', cases)
     for e in errs:
